@@ -197,16 +197,6 @@ Definition small_history : list op :=
   [OBuild positioned; OWrite 0 W_DFXP dflt_opts 0; OBuild unbalanced; OWrite 0 W_DFXP dflt_opts 1;
    OWrite 0 W_DFXP dflt_opts 0; OWrite 1 W_DFXP dflt_opts 0].
 
-Example small_history_no_fuel_exhaustion : no_fuel_exhaustion fixed world0 small_history.
-Proof.
-  unfold small_history. cbn [no_fuel_exhaustion].
-  repeat split;
-    try (intros wi;
-         match goal with |- wr_result (write ?c ?k ?wo wi ?st ?s) <> _ =>
-           destruct (write_instance_independent c k wo wi winst0 st s eq_refl) as (_ & E & _); rewrite E end;
-         vm_compute; discriminate).
-Qed.
-
 (* and the oracle really runs over write records with equal keys and equal snapshots there *)
 Example small_history_observations :
   map (fun o => (io_kind o, io_set o)) (model_obs fixed world0 small_history)
